@@ -14,7 +14,10 @@ use std::sync::Arc;
 impl Parser {
     pub fn expression(&mut self) -> Result<Expr> {
         self.enter_recursion()?;
+        // the links of a finished subexpression no longer enclose what follows it
+        let links = self.chain_links;
         let result = self.assignment();
+        self.chain_links = links;
         self.exit_recursion();
         result
     }
@@ -133,6 +136,7 @@ impl Parser {
         let mut left = self.and_expr()?;
 
         while self.match_token(&TokenKind::Or) {
+            self.chain_link()?;
             let right = self.and_expr()?;
             let span = left.span.merge(right.span);
             left = Expr::new(
@@ -151,6 +155,7 @@ impl Parser {
         let mut left = self.bit_or()?;
 
         while self.match_token(&TokenKind::And) {
+            self.chain_link()?;
             let right = self.bit_or()?;
             let span = left.span.merge(right.span);
             left = Expr::new(
